@@ -115,22 +115,53 @@ theorem C06_constrained_counts (ds cds : Dataset) (q : Str) (hds : ds.WF)
     (h : constrained ds q = .ok cds) :
     ∀ v ∈ cds.vars, match v with
       | .base b => b.data.length = prod b.shape
-      | .struct _ ms => ∀ m ∈ ms, m.data.length = prod m.shape
+      | .struct _ ms => ∀ m ∈ ms, match m with
+        | .base b => b.data.length = prod b.shape
+        | .struct _ bs => ∀ b ∈ bs, b.data.length = prod b.shape
       | .grid _ a ms => a.data.length = prod a.shape ∧ ∀ m ∈ ms, m.data.length = prod m.shape
       | .seq _ cols rows => ∀ r ∈ rows, r.length = cols.length := by
   intro v hv
   have hw := constrained_wf ds cds q hds h v hv
   cases v with
   | base b => exact hw.1
-  | struct n ms => exact fun m hm => (hw m hm).1
+  | struct n ms =>
+    intro m hm
+    have := hw m hm
+    cases m with
+    | base b => exact this.1
+    | struct k bs => exact fun b hb => (this b hb).1
   | grid n a ms => exact ⟨hw.1.1, fun m hm => (hw.2 m hm).1⟩
   | seq n cols rows => exact hw
 
 /-- a hyperslab applied by `apply_projection` keeps an array well formed: the stored object has
-    `.flat` and carries exactly the product of the new shape -/
+    `.flat` and carries exactly the product of the new shape — numpy's selection per axis, the axes
+    the hyperslab does not mention whole (`padSl`), a last index beyond the extent clipped (`sel`) -/
 theorem C06_slice_wf (b b' : Base) (sl : List PSlice) (h : b.WF) (hs : sliceBase b sl = .ok b') :
     b'.WF ∧ b'.name = b.name ∧ b'.ty = b.ty ∧
-    b'.shape = (List.zipWith sel b.shape sl).map List.length := sliceBase_wf b b' sl h hs
+    b'.shape = (List.zipWith sel b.shape (padSl b.shape.length sl)).map List.length := sliceBase_wf b b' sl h hs
+
+/-- **Strings are printed quoted, one per index tuple**: the ASCII lines of an array of strings pair
+    the row-major index tuples with the strings between double quotes -/
+theorem C06_ascii_strings_quoted (fmt : Int → Str) (sh : List Nat) (ss : List Str) :
+    asciiLines fmt sh (ss.map .str)
+      = (List.zip (ndindex sh) ss).flatMap fun p => idxText p.1 ++ [' '] ++ (['"'] ++ p.2 ++ ['"']) ++ ['\n'] := by
+  unfold asciiLines
+  rw [List.zip_map_right, List.flatMap_map]
+  rfl
+
+/-- …and the data response carries that same string as C05's XDR string field (length word, bytes,
+    zero padding to 4n): the Handler model re-uses `XdrSpec.encString`, it does not re-model it -/
+theorem C06_string_wire (s : Str) :
+    valText (.str s) = 's' :: hexText (Pydap.XdrSpec.encString (s.map fun c => UInt8.ofNat c.toNat)) := rfl
+
+/-- a member of a Structure nested in a Structure is printed under its full id by the ASCII
+    response and at one more level of indentation by the declaration; its values are part of the
+    data response in declaration order (`memberValues`) -/
+theorem C06_nested_member (fmt : Int → Str) (n k : Str) (bs : List Base) (level : Nat) :
+    asciiMember fmt n (.struct k bs) = asciiMembers fmt (n ++ ['.'] ++ k) bs ∧
+    ddsMember level (.struct k bs)
+      = indent level ++ cs!"Structure {\n" ++ bs.flatMap (ddsBase (level + 1)) ++ indent level ++ cs!"} " ++ k ++ cs!";\n" ∧
+    memberValues (.struct k bs) = bs.flatMap (·.data) := ⟨rfl, rfl, rfl⟩
 
 /-! ### non-vacuity -/
 
@@ -152,7 +183,7 @@ example : dsA.WF := by
 /-- a dataset with every variable kind: the hypotheses of `C06_ascii_total` are met by a query that
     projects a grid member, slices a structure member, a grid and a sequence with a selection -/
 def dsB : Dataset := ⟨cs!"d", [
-  .struct cs!"st" [{ name := cs!"p", ty := cs!"Int16", shape := [2, 2], dims := [], data := [1, 2, 3, 4] }],
+  .struct cs!"st" [.base { name := cs!"p", ty := cs!"Int16", shape := [2, 2], dims := [], data := [1, 2, 3, 4] }],
   .grid cs!"g" { name := cs!"v", ty := cs!"Int32", shape := [3], dims := [cs!"x"], data := [7, 8, 9] }
     [{ name := cs!"x", ty := cs!"Int32", shape := [3], dims := [cs!"x"], data := [0, 10, 20] }],
   .seq cs!"s" [(cs!"i", cs!"Int32"), (cs!"j", cs!"Int32")] [[1, 5], [2, 6], [3, 7]]]⟩
@@ -166,10 +197,53 @@ example : dsB.WF := by
   · intro r hr; simp at hr; rcases hr with rfl | rfl | rfl <;> rfl
 example : constrained dsB cs!"st.p[0:1][1],g[1:2],s.j,s[0:1]&s.i>1"
     = .ok ⟨cs!"d", [
-      .struct cs!"st" [{ name := cs!"p", ty := cs!"Int16", shape := [2, 1], dims := [], data := [2, 4] }],
+      .struct cs!"st" [.base { name := cs!"p", ty := cs!"Int16", shape := [2, 1], dims := [], data := [2, 4] }],
       .grid cs!"g" { name := cs!"v", ty := cs!"Int32", shape := [2], dims := [cs!"x"], data := [8, 9] }
         [{ name := cs!"x", ty := cs!"Int32", shape := [2], dims := [cs!"x"], data := [10, 20] }],
       .seq cs!"s" [(cs!"j", cs!"Int32")] [[6], [7]]]⟩ := by
+  decide +kernel
+
+/-- strings and a Structure nested in a Structure: a String array, a String scalar, a nested
+    structure with an integer array and a String array, a sequence with a String column -/
+def dsC : Dataset := ⟨cs!"d", [
+  .base { name := cs!"t", ty := cs!"String", shape := [3], dims := [], data := [.str cs!"ab", .str [], .str cs!"c d"] },
+  .struct cs!"st" [
+    .base { name := cs!"p", ty := cs!"Int16", shape := [2], dims := [], data := [1, 2] },
+    .struct cs!"in" [{ name := cs!"q", ty := cs!"Int32", shape := [2, 2], dims := [], data := [1, 2, 3, 4] },
+                     { name := cs!"r", ty := cs!"String", shape := [2], dims := [], data := [.str cs!"k", .str cs!"l"] }]],
+  .seq cs!"s" [(cs!"i", cs!"Int32"), (cs!"n", cs!"String")] [[1, .str cs!"ab"], [3, .str []], [5, .str cs!"c d"]]]⟩
+
+example : dsC.WF := by
+  intro v hv
+  simp only [dsC, List.mem_cons, List.mem_nil_iff, or_false] at hv
+  rcases hv with rfl | rfl | rfl
+  · exact ⟨rfl, rfl⟩
+  · intro m hm; simp at hm
+    rcases hm with rfl | rfl
+    · exact ⟨rfl, rfl⟩
+    · intro b hb; simp at hb; rcases hb with rfl | rfl <;> exact ⟨rfl, rfl⟩
+  · intro r hr; simp at hr; rcases hr with rfl | rfl | rfl <;> rfl
+
+/-- shorthand for a nested member, a hyperslab on it whose last index lies beyond the extent
+    (clipped), a String array sliced, a String column selected by a string comparison -/
+example : constrained dsC cs!"q[1][0:9],st.in.r[1],t[0:1],s.n&s.n!=\"ab\""
+    = .ok ⟨cs!"d", [
+      .struct cs!"st" [.struct cs!"in" [
+        { name := cs!"q", ty := cs!"Int32", shape := [1, 2], dims := [], data := [3, 4] },
+        { name := cs!"r", ty := cs!"String", shape := [1], dims := [], data := [.str cs!"l"] }]],
+      .base { name := cs!"t", ty := cs!"String", shape := [2], dims := [], data := [.str cs!"ab", .str []] },
+      .seq cs!"s" [(cs!"n", cs!"String")] [[.str []], [.str cs!"c d"]]]⟩ := by
+  decide +kernel
+
+example : respond intText dsC cs!"ascii" cs!"st.in.r,t[2],s&s.n<\"b\"" = .ok .ascii (.complete
+    (cs!"Dataset {\n    Structure {\n        Structure {\n            String r[r = 2];\n        } in;\n    } st;\n    String t[t = 1];\n    Sequence {\n        Int32 i;\n        String n;\n    } s;\n} d;\n"
+      ++ dashes ++
+     cs!"st.in.r\n[0] \"k\"\n[1] \"l\"\n\n\n\nt\n[0] \"c d\"\n\ns.i, s.n\n1, \"ab\"\n3, \"\"\n\n")) := by
+  decide +kernel
+
+example : respond intText dsC cs!"dods" cs!"st.in.r,s.n" = .ok .dods (.complete
+    (cs!"Dataset {\n    Structure {\n        Structure {\n            String r[r = 2];\n        } in;\n    } st;\n    Sequence {\n        String n;\n    } s;\n} d;\nData:\n"
+      ++ cs!"s000000016b000000 s000000016c000000 s0000000261620000 s00000000 s0000000363206400")) := by
   decide +kernel
 
 end Pydap.C06
